@@ -384,6 +384,13 @@ func (lc *lockCase) settle(expectCas int) bool {
 					w.inUnlock = false
 				} else if res == "acquired" {
 					w.holds = true
+					// "acquired" must mean held: the Locker's counter says so (an attempt that gave up — shutdown, cancellation,
+					// a storage error — and still reports success leaves a caller inside the lock that holds nothing)
+					if _, cn := dist.VerifLockState(w.locker); cn != 1 {
+						lc.ctx.R.Quiet("mon C04-acquired-means-held", fmt.Sprintf("worker %d: the call returned success, but its Locker's counter is %d (nothing is held)", w.idx, cn))
+						lc.ctx.R.Quiet("mon C01-acquired-means-held", fmt.Sprintf("worker %d: the call returned success, but its Locker's counter is %d (nothing is held)", w.idx, cn))
+						lc.failed = true
+					}
 					if w.kind == "lockctx-shut" {
 						lc.ctx.R.Quiet("mon C04-after-shutdown-no-acquire", fmt.Sprintf("worker %d: the provider was shut down while the attempt stood at the select of lockInternal (Shutdown had returned), yet the attempt went on and acquired the lock", w.idx))
 					}
